@@ -12,10 +12,12 @@ cp /verif/KNOWN_FINDINGS.txt "$tmp/verif/" 2>/dev/null
 if ! (cd "$tmp/repo" && patch -p1 -s --no-backup-if-mismatch < "$patch" >/dev/null 2>&1); then
   echo "PATCH-DOES-NOT-APPLY $patch"; exit 3
 fi
-rc=0
+props=$(echo "$@" | tr ' ' ',')
+out=$(/verif/bin/pebcheck check --property "$props," --repo "$tmp/repo" --verif "$tmp/verif" 2>&1); code=$?
+if [ $code -ge 2 ]; then echo "ERROR exit=$code"; echo "$out" | tail -5; fi
 for p in "$@"; do
-  out=$(/verif/bin/pebcheck check --property "$p" --repo "$tmp/repo" --verif "$tmp/verif" 2>&1); code=$?
-  nv=$(echo "$out" | grep -c '^VIOLATION')
-  echo "$p exit=$code violations=$nv"
-  if [ "${VERBOSE:-0}" = 1 ] || [ $code -ge 2 ]; then echo "$out" | grep -A2 -E '^VIOLATION|internal error|cannot analyse' | sed "s#$tmp/repo/##g; s#$tmp/verif#/verif#g" | head -${LINES_MAX:-40}; fi
+  c=$(echo "$out" | grep "^RESULT $p " | sed 's/.*exit=//')
+  nv=$(echo "$out" | grep -c "^VIOLATION property=$p ")
+  echo "$p exit=${c:-?} violations=$nv"
 done
+if [ "${VERBOSE:-0}" = 1 ]; then echo "$out" | grep -A2 -E '^VIOLATION|internal error|cannot analyse' | sed "s#$tmp/repo/##g; s#$tmp/verif#/verif#g" | head -${LINES_MAX:-40}; fi
